@@ -160,6 +160,16 @@ static void fault_scripts(std::vector<std::vector<JV>>&out){
     s.push_back(act("eq",{{"a",1},{"b",2}})); s.push_back(with_bool(act("add",{{"d",4},{"r",2},{"b",2}}),"o",false));
     out.push_back(s); } }
 
+// ownership after normalization / make-owner: every kind of authority (user info present, empty, absent x every host kind x port) and every
+// mask that names some components but not others - then the source buffer is overwritten and the URI is read again (C12: after a non-zero
+// mask or make-owner NOTHING of the URI may still live in the caller's text, whichever components the mask named)
+static void ownership_scripts(std::vector<std::vector<JV>>&out){
+  const char* auths[]={"","//h","//H","//u@h","//U%41@H%41:1","//1.2.3.4","//u@1.2.3.4:80","//[::1]","//u@[ABCD::1]","//@[::1]:2","//[v7.Fe]","//u@[v7.x]","//[v7.x:y]:80","//","//@","//:1","//u:p@"};
+  const char* rests[]={"/p/q?k=v#f","?Q%41#F%42","","/a/../b/./c"}; const int masks[]={63,1,2,4,8,16,32,6,5,3,12,62,59,48,0};
+  for(auto a:auths) for(auto r:rests) for(int m:masks) for(int how=0;how<2;++how){ std::vector<JV> s; std::string t=std::string("S:")+a+r; if(!*a && r[0]!='/' ) t=std::string("S:x")+r;
+    s.push_back(with_text(act("buf",{{"i",1}}),T(t.c_str()))); s.push_back(act("parse",{{"s",1},{"i",1}}));
+    if(m==0) s.push_back(act("own",{{"s",1}})); else s.push_back(act("norm",{{"s",1},{"m",m}}));
+    s.push_back(act("scribble",{{"i",1},{"how",how*2}})); s.push_back(act("eq",{{"a",1},{"b",1}})); s.push_back(act("free",{{"s",1}})); out.push_back(s); } }
 static void chain_scripts(std::vector<std::vector<JV>>&out){
   const char* bases[]={"s://h/a/b/c","s://h/a/b/","s:/a/b/c","s:a/b/c","s://u@h:1/a/b/c?q"};
   const char* refs[]={"x/.","x/y/.","x/..","./","../x/.","x/./y/..","..//x","x//","./x:y","../../..","?q2","","/.//x","//g/p/.."};
@@ -185,9 +195,9 @@ VH_DRIVER(session){
   std::string mode=arg_value(argc,argv,"--mode","random"); long n=atol(arg_value(argc,argv,"--n",g.thorough?"20000":"1500")); Rng R(g.seed);
   if(mode=="random"){ std::vector<Text> pool=corpus_uris(R,false,300); int steps=atoi(arg_value(argc,argv,"--steps",g.thorough?"30":"20"));
     for(long i=0;i<n;++i){ if(g.pair){ Rng R2=R; AW(true,true,[&]{ random_episode<ApiA>(R,steps,(size_t)i,pool); },[&]{ random_episode<ApiW>(R2,steps,(size_t)i,pool); },(size_t)i); } else if(i%2) random_episode<ApiA>(R,steps,(size_t)i,pool); else random_episode<ApiW>(R,steps,(size_t)i,pool); if(i%501==0) g.sample(J().str("episode","random session").num("steps",steps).num("index",i).done()); }
-  } else if(mode=="chains"){ std::vector<std::vector<JV>> scripts; fault_scripts(scripts); size_t nfault=scripts.size(); chain_scripts(scripts); size_t total=scripts.size(); double keep= (long)(total-nfault)>n? (double)n/(total-nfault) : 1.0;
+  } else if(mode=="chains"){ std::vector<std::vector<JV>> scripts; fault_scripts(scripts); ownership_scripts(scripts); size_t nfault=scripts.size(); chain_scripts(scripts); size_t total=scripts.size(); double keep= (long)(total-nfault)>n? (double)n/(total-nfault) : 1.0;
     for(size_t i=0;i<total;++i){ if(i>=nfault && keep<1.0 && (R.next()%1000000)>=keep*1000000) continue; bool um=(i<nfault)||(i%5==0);
-      if(g.pair) AW(true,true,[&]{ chain_episode<ApiA>(scripts[i],i,um); },[&]{ chain_episode<ApiW>(scripts[i],i,um); },i); else if(i%2) chain_episode<ApiA>(scripts[i],i,um); else chain_episode<ApiW>(scripts[i],i,um);
+      if(g.pair) AW(true,true,[&]{ chain_episode<ApiA>(scripts[i],i,um); },[&]{ chain_episode<ApiW>(scripts[i],i,um); },i); else if(__builtin_popcountl(i)&1) chain_episode<ApiA>(scripts[i],i,um); else chain_episode<ApiW>(scripts[i],i,um);
       if(i%211==0) g.sample(J().str("episode","chain").num("index",(long long)i).done()); }
   } else { auto lines=read_lines(arg_value(argc,argv,"--script","")); long k=0; for(auto&l:lines){ bool ok=true; JV rec=jparse_line(l,&ok); if(!ok||!rec.has("script")) continue; ++k;
       if(k%2) replay_script<ApiA>(rec,(size_t)k,(int)(k%3)); else replay_script<ApiW>(rec,(size_t)k,(int)(k%3)); if(k%997==0) g.sample(J().raw("script",rec["script"].dump()).done()); } }
